@@ -5,7 +5,7 @@ from vlib import *
 
 ENTRIES = ["arc", "arc_overaligned", "arc_slice", "arc_str", "arc_dyn", "thin", "thin_with_arc_clone", "offset_clone", "offset_clone_arc",
            "offset_with_arc_clone", "with_raw_offset_arc_clone", "borrow_clone_arc", "borrow_with_arc_clone", "union_first", "union_second",
-           "refcnt_inc", "arc_raced2", "arc_raced3"]
+           "refcnt_inc", "arc_raced2", "arc_raced3", "arc_clone_from", "offset_clone_from", "thin_clone_from", "union_clone_from"]
 # start class -> value of the W = 4 bit model (MAX = 7)
 CLASSES = {"1": 1, "2": 2, "2^31": 3, "2^32": 4, "imax-1": 6, "imax": 7, "imax+1": 8, "imax+2": 9, "umax-1": 14, "umax": 15}
 REAL = {"1": 1, "2": 2, "2^31": 1 << 31, "2^32": 1 << 32, "imax-1": (1 << 63) - 2, "imax": (1 << 63) - 1, "imax+1": 1 << 63,
@@ -35,6 +35,8 @@ def overflow_stage(prop, tier, name):
     for cfgname in ("a", "b"):
         exe = build_harness(cfgname)
         for ent in ENTRIES:
+            if prop == "C12" and not ent.startswith(("union", "borrow")):
+                continue
             for cls, mv in CLASSES.items():
                 want0 = want = table[str(mv)] if isinstance(table, dict) else table[mv]
                 # the process must die whatever its environment: also with a standard error stream that rejects every write
